@@ -1,9 +1,9 @@
 """C15 -- geometric 1D discretisation yields an ordered graded mesh.
-Engine S + induction: the decision trees of geometricDiscretization for n = 1..4 are regenerated from /repo (loop unrolled by
-execution) and proved equal to a hand-written fold model; the theorems about the model hold for every n (induction).  The
+Engine S + induction: the decision trees of geometricDiscretization for n = 1..8 are regenerated from /repo (loop unrolled by
+execution) and proved equal to a hand-written fold model for n = 1..5 (quick) / 1..8 (thorough); the theorems about the model hold for every n (induction).  The
 real code is run for n up to 1e5 and judged by an independent statement of the property; its nodes are also compared with a
 float evaluation of the model's fold."""
-import math, os
+import math, os, threading
 from vlib import guarded_main
 
 SUPPORT = ["src/Math/Discretization1D.cxx", "src/Math/MathException.cxx", "src/Exception/TFELException.cxx"]
@@ -13,6 +13,9 @@ CORPUS = [
     (0.0, 1.0, 1e-3, 1.009e-3, 100000), (0.0, 1.0, 1e-3, 1.009e-3, 1000), (0.0, 1.0, 1.0, 1.000001, 10),
     (0.0, 1.0, 0.1, 0.5, 10), (0.0, 1.0, 0.5, 0.1, 10), (2.0, -1.0, 0.3, 0.2, 7), (0.0, 1.0, 0.2, 0.2, 1), (0.0, 1.0, 0.2, 0.2, 100000),
     (-1.0, 1.0, 0.01, 0.01, 1000), (0.0, 1e-3, 1e-5, 2e-5, 50), (0.0, 1.0, 0.1, 0.3, 1), (5.0, 4.0, 0.1, 0.3, 2),
+    # both orientations with negative coordinates, n >= 2 (the first element must have the sign of xe - xb)
+    (-1.0, -3.0, 0.1, 0.3, 2), (-3.0, -1.0, 0.1, 0.3, 2), (-1.0, -3.0, 0.3, 0.1, 9), (-3.0, -1.0, 0.2, 0.2, 64), (1.0, -1.0, 0.2, 0.2, 3),
+    (-2.5, -7.5, 0.05, 0.05000001, 1000), (4.0, -4.0, 0.5, 0.5000001, 100000), (-1e-3, -2e-3, 1e-5, 3e-5, 17),
 ]
 
 
@@ -28,6 +31,10 @@ def judge(t, v):
     if v[0] != xb or v[-1] != xe:
         return "end points %r, %r instead of %r, %r" % (v[0], v[-1], xb, xe)
     sg = 1.0 if xe > xb else -1.0
+    lo_, hi_ = min(xb, xe), max(xb, xe)
+    for k, x in enumerate(v):
+        if not (lo_ <= x <= hi_):
+            return "node %d = %r is outside [xb, xe] (xb=%r, xe=%r)" % (k, x, xb, xe)
     d = [sg * (v[k + 1] - v[k]) for k in range(n)]
     for k, e in enumerate(d):
         if not e > 0:
@@ -90,8 +97,8 @@ def main(c):
             c.count(1)
     c.coverage["traces_validated_against_impl"] = nag
     c.trusted("engine S tracer (cxx/sym/sym.hxx path oracle + printer), g++ instantiation of geometricDiscretization with std::vector<Sym>",
-              "agreement decision trees (n=1..4, long double evaluation) vs double instantiation on %d seeded inputs" % nag,
-              "hand-written fold model coq/C15Model.v: tied to the code by the Coq lemmas tie_1..tie_4 (regenerated trees = model) and by "
+              "agreement decision trees (n=1..8, long double evaluation) vs double instantiation on %d seeded inputs" % nag,
+              "hand-written fold model coq/C15Model.v: tied to the code by the Coq lemmas tie_1..tie_5 (quick) / tie_1..tie_8 (thorough) (regenerated trees = model) and by "
               "float evaluation of the same fold in check.py compared with the real nodes for n up to 1e5")
 
     # ---- run the real code
@@ -159,7 +166,7 @@ def main(c):
     c.notes.append("model/code agreement of the fold: rule 1/n matched %d cases, rule 1/sum matched %d cases" % (rule_votes["1/n"], rule_votes["sum"]))
     c.coverage["rule"] = ("fixed corpus (incl. nearly equal densities with n = 10, 1000, 1e5) + seeded sweep over intervals of both orientations, "
                           "n in {1,2,3,5,10,37,100,1000,1e4,1e5}, equal densities or a target ratio in the geometric branch with r^n in [1e-3,1e3]; "
-                          "judged: n+1 nodes, end points exact, strictly monotone, ratio of consecutive element lengths constant (relative tolerance "
+                          "judged: n+1 nodes, end points exact, every node inside [xb,xe], strictly monotone towards xe, ratio of consecutive element lengths constant (relative tolerance "
                           "1e-6*(1+n/100) + cancellation term); nodes equal to the float evaluation of the model's fold to 1e-12")
 
     # ---- proofs
@@ -167,11 +174,34 @@ def main(c):
     if f4_seen:
         c.notes.append("finding F4 observed: theorems are checked for the model with rf = 1/n (Properties_C15_F4.v)")
     res = c.coq([gen, "C15Spec.v", "C15Model.v", "C15Proofs.v", tie, props], timeout=900)
-    if not res.ok:
+    failed = [] if res.ok else [res]
+    if res.ok and not f4_seen:
+        # ties for larger n (one file per n, at most 3 in parallel): n = 5 in both tiers, n = 6, 7, 8 in the thorough tier (n = 8 alone takes 7-8 minutes)
+        big = [5] if c.quick() else [5, 6, 7, 8]
+        par = {}
+
+        def comp(n):
+            par[n] = c.coq(["C15Tie%d.v" % n], timeout=2400)
+        ths = [threading.Thread(target=comp, args=(n,)) for n in big]
+        for t in ths:
+            t.start()
+        for t in ths:
+            t.join()
+        failed += [r for r in par.values() if not r.ok]
+        for pf, ns in (("Properties_C15_Tie5.v", [5]), ("Properties_C15_Tie67.v", [6, 7]), ("Properties_C15_Tie8.v", [8])):
+            if all(n in par and par[n].ok for n in ns):
+                r = c.coq([pf], timeout=600)
+                if not r.ok:
+                    failed.append(r)
+        c.coverage["checker_cmd"] = ("coqc -Q coq/lib VLib -R <scratch> C15 C15_gen.v C15Spec.v C15Model.v C15Proofs.v %s %s %s (Coq 8.16.1)" % (
+            tie, " ".join("C15Tie%d.v" % n for n in big), props + " Properties_C15_Tie5.v" + ("" if c.quick() else " Properties_C15_Tie67.v Properties_C15_Tie8.v")))
+        c.notes.append("trees regenerated for n = 1..8 (agreement with double on all of them); tie lemmas proved for n = 1..%d in this tier" % max(big))
+    if failed:
         if any(v[3] for v in c.violations):
-            c.notes.append("proof obligations failed: %s; concrete failing inputs are reported" % [f[:3] for f in res.failed])
+            c.notes.append("proof obligations failed: %s; concrete failing inputs are reported" % [f[:3] for r in failed for f in r.failed])
         else:
-            c.coq_failures(res)
+            for r in failed:
+                c.coq_failures(r)
 
 
 guarded_main("C15", main)
